@@ -219,6 +219,8 @@ package core
 //@   modifies nothing
 
 //@ spec limitOf(c) = c == nil ? DefaultControl.Limit : c.Limit
+// A negative limit allows no step (C07: every control setting is a legal input).
+//@ spec stepsOf(c) = limitOf(c) < 0 ? 0 : limitOf(c)
 // suffixOf(s, t): slice s is a suffix of slice t (same backing array, same end).
 //@ spec suffixOf(s, t) = len(s) <= len(t) && (len(s) > 0 ==> backing(s) == backing(t) && off(s) + len(s) == off(t) + len(t))
 
@@ -227,7 +229,6 @@ package core
 //@   canon C09
 //@   calls breakpoint as sig:core.Breakpoint
 //@   requires s != nil && st != nil && wfSpec(s)
-//@   requires c != nil ==> c.Limit >= 0
 //@   requires c != nil ==> forall id string :: (id in c.Breakpoints) ==> c.Breakpoints[id] != nil
 //@   modifies[C06,C12;profile=pure] nothing
 //@   modifies[;profile=any] st.Bs
@@ -235,7 +236,7 @@ package core
 //@   ensures total: err == nil && walked != nil && fresh(walked)
 //@   ensures[;profile=pure] strides: forall j int :: 0 <= j && j < len(walked.Strides) ==> walked.Strides[j] != nil
 //@   ensures[;profile=pure] events: forall j int :: 0 <= j && j < len(walked.Strides) ==> walked.Strides[j].Events != nil
-//@   ensures[C05;profile=pure] bound: len(walked.Strides) <= limitOf(c)
+//@   ensures[C05;profile=pure] bound: len(walked.Strides) <= stepsOf(c)
 //@   ensures[C05;profile=pure] remaining: (walked.StoppedBecause == Limited || walked.StoppedBecause == BreakpointReached) ==> suffixOf(walked.Remaining, pendings)
 //@   ensures[C05;profile=pure] done: walked.StoppedBecause == Done ==> len(walked.Remaining) == 0 && len(walked.Strides) > 0 && walked.Strides[len(walked.Strides)-1].To == nil
 //@   ensures[C05;profile=pure] reason: walked.StoppedBecause == Done || walked.StoppedBecause == Limited || walked.StoppedBecause == BreakpointReached
@@ -243,11 +244,11 @@ package core
 //@   ensures[C05,group:ord;profile=pure] inorder: (len(walked.Strides) > 0 ==> kappa(0) == 0) && forall j rawint :: 0 <= j && j + 1 < len(walked.Strides) ==> kappa(j + 1) == kappa(j) + cons(j) && cons(j) == (walked.Strides[j].Consumed != nil ? 1 : 0)
 //@   ensures[C05,group:ord;profile=pure] exactrest: (walked.StoppedBecause == Limited || walked.StoppedBecause == BreakpointReached) ==>
 //@                          len(pendings) - len(walked.Remaining) == (len(walked.Strides) == 0 ? 0 : kappa(len(walked.Strides) - 1) + (walked.Strides[len(walked.Strides)-1].Consumed != nil ? 1 : 0))
-//@   ensures[C05;profile=pure] limited: walked.StoppedBecause == Limited ==> len(walked.Strides) == limitOf(c)
+//@   ensures[C05;profile=pure] limited: walked.StoppedBecause == Limited ==> len(walked.Strides) == stepsOf(c)
 //@   loop 0 invariant st != nil && c != nil && c.Limit == limitOf(old(c))
 //@   loop 0 invariant (st == old(st) && st.Bs == old(st.Bs)) || (fresh(st) && fresh(st.Bs))
 //@   loop 0 invariant fresh(walked) && (cap(walked.Strides) == 0 || fresh(walked.Strides))
-//@   loop 0 invariant[C05;profile=pure] steps: 0 <= i && i <= c.Limit && len(walked.Strides) == i
+//@   loop 0 invariant[C05;profile=pure] steps: 0 <= i && (i <= c.Limit || i == 0) && len(walked.Strides) == i
 //@   loop 0 invariant[C05;profile=pure] queue: suffixOf(pendings, old(pendings))
 //@   loop 0 invariant[C05;profile=pure] offs: len(pendings) > 0 ==> off(pendings) == off(old(pendings)) + len(old(pendings)) - len(pendings)
 //@   loop 0 invariant[C05;profile=pure] nonnil: forall j int :: 0 <= j && j < len(walked.Strides) ==> walked.Strides[j] != nil
